@@ -9,6 +9,7 @@ import ElfioVerif.Basic
 import ElfioVerif.Gen.Funcs
 import ElfioVerif.Gen.SitesC11
 import ElfioVerif.Gen.SitesC10
+import ElfioVerif.Spec.Symbols
 import Std.Tactic.BVDecide
 
 namespace ElfioVerif
@@ -120,5 +121,49 @@ theorem rel32_type_info (s : BitVec 32) (t' : BitVec 64) :
   simp only [rel32_r_type, rsw_rel32_info]; bv_decide
 theorem setWidth_signExtend_32 (v : BitVec 32) : BitVec.setWidth 32 (BitVec.signExtend 64 v) = v := by
   bv_decide
+
+/-! ### C09: hash-function steps and the `ELF_ST_*` macro uses -/
+
+/-- one round of the generated `elf_hash` loop body is the gABI round -/
+theorem elf_hash_step (h : BitVec 32) (c : BitVec 8) :
+    (let h1 : BitVec 32 := (h <<< 4) + BitVec.setWidth 32 c
+     let g : BitVec 32 := h1 &&& 4026531840#32
+     let h2 := if (g != 0#32) = true then h1 ^^^ (g >>> 24) else h1
+     h2 &&& ~~~g) = Spec.sysvStep h c := by
+  simp only [Spec.sysvStep]
+  by_cases hg : ((h <<< 4) + BitVec.setWidth 32 c) &&& 4026531840#32 = 0#32
+  · simp [hg]
+  · simp [hg]
+
+/-- the gABI round in shift-free form (used for the arithmetic reading `sysvStepNat`) -/
+theorem sysvStep_arith (h : BitVec 32) (c : BitVec 8) :
+    Spec.sysvStep h c =
+      (((h * 16#32 + BitVec.setWidth 32 c) ^^^ ((((h * 16#32 + BitVec.setWidth 32 c) >>> 28)) * 16#32)) &&& 268435455#32) := by
+  simp only [Spec.sysvStep]
+  bv_decide
+
+theorem gnu_hash_step (h : BitVec 32) (c : BitVec 8) :
+    ((h <<< 5) + h) + BitVec.setWidth 32 c = Spec.gnuStep h c := by
+  simp only [Spec.gnuStep]
+  bv_decide
+
+/-- the shapes clang gives the `ELF_ST_INFO` / `ELF_ST_BIND` / `ELF_ST_TYPE` uses (operands promoted to
+    `int`, result converted back to `unsigned char`) are the gABI macros on `unsigned char`.  Stated
+    on explicit terms so that a change of the generated sites breaks Lemmas/Symbols.lean, not this
+    file (which the driver imports). -/
+theorem bits_st_info (b t : BitVec 8) :
+    BitVec.setWidth 8 (((BitVec.setWidth 32 b) <<< 4) + ((BitVec.setWidth 32 t) &&& 15#32)) = Spec.stInfo b t := by
+  simp only [Spec.stInfo]; bv_decide
+theorem bits_st_bind (i : BitVec 8) :
+    BitVec.setWidth 8 (BitVec.sshiftRight (BitVec.setWidth 32 i) 4) = Spec.stBind i := by
+  simp only [Spec.stBind]; bv_decide
+theorem bits_st_type (i : BitVec 8) :
+    BitVec.setWidth 8 ((BitVec.setWidth 32 i) &&& 15#32) = Spec.stType i := by
+  simp only [Spec.stType]; bv_decide
+/-- packing then unpacking keeps the low four bits of binding and type -/
+theorem st_bind_info (b t : BitVec 8) : Spec.stBind (Spec.stInfo b t) = b &&& 0xf := by
+  simp only [Spec.stBind, Spec.stInfo]; bv_decide
+theorem st_type_info (b t : BitVec 8) : Spec.stType (Spec.stInfo b t) = t &&& 0xf := by
+  simp only [Spec.stType, Spec.stInfo]; bv_decide
 
 end ElfioVerif
